@@ -28,6 +28,7 @@
 //   prio NAME DELTA                     CTxMemPool::PrioritiseTransaction
 //   template MAXW RESERVED MINFEE CBSIGOPS    BlockAssembler{..}.CreateNewBlock() with these options (test_block_validity off;
 //                                       TestBlockValidity is called by the driver and its verdict printed)
+// Every dumped entry ends with the result of a fresh BIP68 evaluation for the next block (1/0).
 // T0 = nTime of the fixture tip.  Output: tokens separated by " | "; the first is `init ...`, then one per op except cfg/tx.
 // A token is `<observable part> ;; <detail>` (see fmt below).  If the node aborts inside an op the line ends in `| CRASH`.
 #define VERIF_NO_TEST_GLOBALS
@@ -537,6 +538,13 @@ struct Run {
                 ins.push_back(name_of(in.prevout.hash) + ":" + std::to_string(in.prevout.n) + ":" + st);
             }
             s += join(ins, ".");
+            // BIP68 by a FRESH evaluation on (CoinsTip + mempool): CalculateLockPointsAtTip + CheckSequenceLocksAtTip
+            {
+                const CCoinsViewMemPool vm{&view, mp};
+                CBlockIndex* tipnc = cs.m_chain.Tip();
+                const std::optional<LockPoints> fresh{CalculateLockPointsAtTip(tipnc, vm, tx)};
+                s += std::string(",") + ((fresh.has_value() && CheckSequenceLocksAtTip(tipnc, *fresh)) ? "1" : "0");
+            }
             es.push_back(s);
         }
         std::sort(es.begin(), es.end());
